@@ -68,6 +68,15 @@ func genCfg(r *Rng) *handCfg {
 		if n*c.hole+8 > len(deck) {
 			c.hole, c.req = 2, 2
 		}
+	} else if r.Chance(0.04) {
+		// more required hole cards than are dealt (accepted by the engine: no selection is admissible then, hands are
+		// evaluated on what there is): C14 quantifies over all hole-card counts, and "the configured number of hole
+		// cards" is HoleCardsCount, whatever RequiredHoleCardsCount says
+		c.hole = 2 + r.Intn(2)
+		c.req = c.hole + 1
+		if n*c.hole+8 > len(deck) {
+			c.hole, c.req = 2, 3
+		}
 	}
 	c.deck = permute(r, deck)
 	if r.Chance(0.12) && c.hole == 2 {
